@@ -119,7 +119,7 @@ fn fnv(v: &[u64]) -> u64 {
 
 #[derive(Clone)]
 enum Call {
-    AllPairs { weighted: bool, cutoff: Option<f64>, first_only: bool, with_paths: bool },
+    AllPairs { weighted: bool, target: Option<i64>, cutoff: Option<f64>, first_only: bool, with_paths: bool },
     MultiSource { weighted: bool, first_only: bool, with_paths: bool, sources: Vec<i64> },
     Involving { weighted: bool, node: i64 },
     Betweenness { weighted: bool, normalized: bool },
@@ -139,8 +139,8 @@ fn fn_id(c: &Call) -> i64 {
 /// the call through the public (possibly parallel) API, canonicalised; None when it panicked
 fn run_call(g: &G, c: &Call) -> Option<Vec<u64>> {
     guard(|| match c {
-        Call::AllPairs { weighted, cutoff, first_only, with_paths } => {
-            canon_pairs(&dijkstra::all_pairs(g, *weighted, None, *cutoff, *first_only, *with_paths))
+        Call::AllPairs { weighted, target, cutoff, first_only, with_paths } => {
+            canon_pairs(&dijkstra::all_pairs(g, *weighted, *target, *cutoff, *first_only, *with_paths))
         }
         Call::MultiSource { weighted, first_only, with_paths, sources } => canon_pairs(&dijkstra::multi_source(
             g,
@@ -163,13 +163,13 @@ fn run_call(g: &G, c: &Call) -> Option<Vec<u64>> {
 fn serial_reference(g: &G, c: &Call) -> Option<Vec<u64>> {
     let names: Vec<i64> = g.get_all_node_names().into_iter().cloned().collect();
     guard(|| match c {
-        Call::AllPairs { weighted, cutoff, first_only, with_paths } => {
+        Call::AllPairs { weighted, target, cutoff, first_only, with_paths } => {
             if *weighted && !g.edges_have_weight() {
                 return canon_pairs(&dijkstra::all_pairs(g, true, None, None, false, false).map(|_| HashMap::new()));
             }
             let mut m = HashMap::new();
             for s in &names {
-                let r = dijkstra::single_source(g, *weighted, *s, None, *cutoff, *first_only, *with_paths);
+                let r = dijkstra::single_source(g, *weighted, *s, *target, *cutoff, *first_only, *with_paths);
                 match r {
                     Ok(x) => {
                         m.insert(*s, x);
@@ -220,7 +220,10 @@ fn parse_call(t: &mut Toks) -> Option<Call> {
             let cb = u64::from_str_radix(t.s().trim_start_matches('x'), 16).unwrap();
             let first_only = t.i() != 0;
             let with_paths = t.i() != 0;
-            Some(Call::AllPairs { weighted, cutoff: if has_c { Some(f64::from_bits(cb)) } else { None }, first_only, with_paths })
+            // optional trailing `1 <target>`
+            let rest = t.rest_i();
+            let target = if rest.len() == 2 && rest[0] == 1 { Some(rest[1]) } else { None };
+            Some(Call::AllPairs { weighted, target, cutoff: if has_c { Some(f64::from_bits(cb)) } else { None }, first_only, with_paths })
         }
         "multi_source" => {
             let weighted = t.i() != 0;
@@ -282,7 +285,7 @@ fn hammer(g: &G, weighted: bool, iters: u64, o: &mut Out) {
     let ref_single: Vec<Vec<u64>> = names.iter().map(|s| single(*s)).collect();
     let ref_edges: Vec<Vec<u64>> = names.iter().map(|s| edge_rows(*s)).collect();
     let calls = vec![
-        Call::AllPairs { weighted, cutoff: None, first_only: false, with_paths: true },
+        Call::AllPairs { weighted, target: None, cutoff: None, first_only: false, with_paths: true },
         Call::MultiSource { weighted, first_only: false, with_paths: true, sources: names.clone() },
         Call::Involving { weighted, node: names[0] },
         Call::Betweenness { weighted, normalized: true },
